@@ -1,12 +1,19 @@
 (* Property C02 — AOEF documents are self-contained and resolvable in a single pass. *)
 From Coq Require Import ZArith List Bool Arith.
-From SE Require Import Aoef.Model Aoef.Schema Aoef.Typing Aoef.SaveProofs Aoef.AuditProofs Aoef.Pinned Aoef.Final.
+From SE Require Import Aoef.Model Aoef.Schema Aoef.Typing Aoef.SaveProofs Aoef.AuditProofs Aoef.Pinned Aoef.Final Aoef.TagIds.
 Import ListNotations.
 
 (* identifiers are unique within every top-level list: for every schema, adapter and object, no side condition *)
 Theorem C02_ids_unique : forall sch rt U c, NoDup (map fkey (get_table c (fst (save_root sch rt U)))).
 Proof. exact ids_unique_b. Qed.
 Print Assumptions C02_ids_unique.
+
+(* tag ids are dense: an id allocated as "number of keys seen so far" is the position of the tag in its list, so the ids of
+   every written list are 0, 1, ..., n-1 in order — for every schema, adapter and object *)
+Theorem C02_tag_ids_dense : forall sch rt U c,
+  tag_ids (get_table c (fst (save_root sch rt U))) = seq 0 (length (get_table c (fst (save_root sch rt U)))).
+Proof. exact doc_tag_ids_dense. Qed.
+Print Assumptions C02_tag_ids_dense.
 
 (* closed under reference: every identifier mentioned anywhere in the document (tables and the collection's own
    lists) is defined exactly once in its list *)
